@@ -101,7 +101,16 @@ PROPS = {
         explanation="in every schedule, with per-thread hash functions, the shared heap stays equal to the base, every write is private, write sets are disjoint from other threads' accesses, each thread's state equals its solo run, and a finished thread's result equals the big-step run on the base heap (C14_no_shared_write, C14_race_free, C14_sequential, C14_results); C14_unhashed_counterexample shows the 'hashed beforehand' premise is necessary",
         assumptions=['FullyMemo of the start nodes plus Safe clients, or AllMemo base plus NoPoke clients', 'interleaving granularity = one tree primitive; the Go memory model and compiler reordering are not modelled (the race detector run covers the accesses that actually occur)', 'no package-level mutable state besides ZeroHashes and the stateless Hash (fact inventory F3/F4)'],
         trusted=COMMON_TRUST + ["hand model of PairNode.MerkleRoot, NewPairNode and the Node accessors as rootH/Prog primitives (Model/Heap.lean)"]),
-    "C20": P(20, ["C20"]),
+    "C20": P(20, ["C20", "C20f"],
+        rule="PROP only (model observation `-`): measured runtime.MemStats.TotalAlloc of one decode call (GC off, second run) <= 8 * costBound t len = 8*2048*(len+footprint)*(1+maxDepth) for `mem` (view decoders), "
+             "<= 8 * flatCostBound = 8*512*(len+1)*flatFootprint*(1+nest) for `fl.mem` (flat decoders); never panic; random composite types with valid encodings and 3 corruptions each, plus 15x15 extreme offset words on offset-carrying types with limits 2^32..2^40; "
+             "distinct = distinct (type shape, input shape, outcome)",
+        explanation="C20_view, C20_flat: allocation units of the instrumented twins (C20_twin_is_decoder, C20_flat_twin_is_decoder: result component = the validated decoders) are bounded for every well-formed type and every byte string by a function of input length, "
+                    "footprint and nesting/depth only; C20_no_limit_dependence: the bound depends on the type with limits erased; C20_counterexample_unrepaired: the upstream decoders violate it with 4 bytes",
+        assumptions=["one unit ~ one byte requested; allocator size classes, headers, GC, error values and the top-level reader are not modelled and are absorbed by the calibration factor 8 (measured worst ratio 0.25)",
+                     "scope = len(input) for the headline theorems (C20_flat_declared_scope covers a larger declared scope)", "caller-side callbacks of the flat API (add(), selectFn) are charged a type constant",
+                     "decoder model assumptions as in C03/C10"],
+        trusted=COMMON_TRUST + ["unit table in Model/DecodeCost.lean and Model/FlatCost.lean (which Go statements allocate and how much)", "calibration factors in Driver/OpsMem.lean"]),
     "C19": P(19, ["C19"],
         rule="CORR = model observation string equal to the implementation's on every cv.* op (each op runs every public route reaching the same conv function); PROP = verdict ok on every line; "
              "all uint8/uint16 values, boundary and random uint32/64/256 in bases 2/8/10/16 with prefixes, underscores, quotes, signs, whitespace, decimal 2^k±1 for k <= 264, hex texts of every length 0..80; distinct = distinct op lines",
